@@ -35,6 +35,11 @@ THEOREMS = [
     "Verif.C05.cropped_export_reads_back",
     "Verif.C05.channel_class_v1",
     "Verif.C05.channel_class_bytes",
+    "Verif.C05.crop_export_read_eq",
+    "Verif.C05.crop_crop_full",
+    "Verif.C05.sample_rate_round_trip",
+    "Verif.C05.read_v1_same",
+    "Verif.C05.reexport_crop",
     "Verif.C05.cal_from_field_mem",
     "Verif.C05.cal_from_field_order",
     "Verif.C05.slice_calibration_spec",
@@ -62,6 +67,7 @@ RULE = (
     "channel properly or drops one, or an omit pattern removes a proper subset; direct ops with a non-empty answer."
 )
 TRUSTED = [
+    "IEEE-754 double division and Python's round(): modelled exactly over Rat (flDouble, roundHalfEven), proved to meet the standard model, and compared with the interpreter's own results on every run (ops c05.fl, c05.round, c05.rateq, c05.dtq)",
     "h5py/HDF5 as the storage codec (files are written and independently re-read with h5py)",
     "Python's fnmatch for patterns with '[' (outside the model; generated patterns use literals, * and ? only)",
 ]
@@ -401,6 +407,21 @@ def _cropread_impl(case):
         return [show_read(channel_class(d).from_dataset(d))]
 
 
+def _cropread2_impl(case):
+    """export with one window, read, export what was read with a second window, read"""
+    from lumicks.pylake.channel import Slice, channel_class
+
+    sl = Slice(make_source(case["src"]))
+    with mem_h5() as f:
+        for i, (a, b) in enumerate((case["crop"], case["crop2"])):
+            sl = sl[a:b]
+            if not sl:
+                return ["absent"]
+            d = sl._src.to_dataset(f, f"x{i}", compression="gzip", compression_opts=5)
+            sl = channel_class(d).from_dataset(d)
+        return [show_read(sl)]
+
+
 # ------------------------------------------------------------------ file case: plan of ops
 
 
@@ -438,6 +459,11 @@ def file_plan(case):
         for path in sorted(exp):
             # the same observation against the model's slice -> to_dataset -> channel_class -> from_dataset chain
             plan.append((f"c05.cropread {src_tokens(exp[path])} {a} {b}", "cropread", path))
+        if case.get("crop2"):
+            c, d = case["crop2"]
+            for path in sorted(exp):
+                # the exported file exported again with a second window
+                plan.append((f"c05.cropread2 {src_tokens(exp[path])} {a} {b} {c} {d}", "cropread2", path))
     return plan
 
 
@@ -462,6 +488,10 @@ def ops(case):
         return [f"c05.dt {enc_float(1e9 / case['dt'])}", f"c05.rateq {case['dt']}", f"c05.dtq {enc_rat(1e9 / case['dt'])}"]
     if k == "dtr":
         return [f"c05.dtq {enc_rat(dec_float(case['rate']))}"]
+    if k == "dtu":
+        return [f"c05.dtu {enc_float(1e9 / case['dt'])}", f"c05.dtqu {enc_rat(1e9 / case['dt'])}"]
+    if k == "num":
+        return [f"c05.{case['what']} {case['x']}"]
     if k == "omit":
         return [f"c05.omit {enc_listlist([[ord(c) for c in p] for p in case['pats']])} {enc_listlist([[ord(c) for c in p] for p in case['paths']])}"]
     if k == "calchan":
@@ -473,6 +503,8 @@ def ops(case):
         return [f"c05.class {case['kind']} {case['shape']} {enc_bool(case['rate'])}"]
     if k == "cropread":
         return [f"c05.cropread {src_tokens(case['src'])} {case['crop'][0]} {case['crop'][1]}"]
+    if k == "cropread2":
+        return [f"c05.cropread2 {src_tokens(case['src'])} {case['crop'][0]} {case['crop'][1]} {case['crop2'][0]} {case['crop2'][1]}"]
     if k == "attrs":
         pres = enc_listlist([[ord(c) for c in p] for p in case["present"]])
         return [f"c05.attr {pres} {a}" for a in attr_names()]
@@ -529,6 +561,16 @@ def impl(case):
 
             s = Continuous.from_dataset(FakeDset({"Start time (ns)": 0, "Sample rate (Hz)": dec_float(case["rate"])}, 3))
             return [str(public_dt(s))]
+        if k == "dtu":
+            # the expression of the pinned snapshot (finding F7, fixed in /repo) that F7_witness_exact speaks about
+            return [str(int(1e9 / (1e9 / case["dt"])))] * 2
+        if k == "num":
+            from fractions import Fraction
+
+            x = Fraction(case["x"])
+            if case["what"] == "round":
+                return [str(round(float(x)))]  # x is a double: Python's round on it, as in from_dataset
+            return [enc_rat(x.numerator / x.denominator)]  # one correctly rounded division, as in sample_rate
         if k == "omit":
             return [_omit_impl(case)]
         if k == "dset":
@@ -539,6 +581,8 @@ def impl(case):
             return _class_impl(case)
         if k == "cropread":
             return _cropread_impl(case)
+        if k == "cropread2":
+            return _cropread2_impl(case)
         if k == "file":
             return _file_impl(case)
         if k == "attrs":
@@ -592,7 +636,7 @@ def _file_impl(case):
             obs["read"] = read_all(f, spec)
             obs["rates"] = {}
             answers = []
-            new = None
+            new = new2 = None
             out = os.path.join(d, "out.h5")
             if case["mode"] == "omit":
                 pats = case["omit"]
@@ -636,13 +680,20 @@ def _file_impl(case):
                                     flags.append(p in g and dict_equal(dict(node_src.attrs), dict(g[p].attrs)))
                             answers.append(enc_list(flags, enc_bool))
                             obs["omit_compare"] = compare_uncropped(f.h5, g, case["all_paths"], flags)
-                    elif kind in ("crop", "cropread"):
+                    elif kind in ("crop", "cropread", "cropread2"):
                         if new is None:
                             new = lk.File(out)
+                        cur = new
+                        if kind == "cropread2":
+                            if new2 is None:
+                                out2 = os.path.join(d, "out2.h5")
+                                new.save_as(out2, compression_level=case.get("compression", 5), crop_time_range=tuple(case["crop2"]), verbose=False)
+                                new2 = lk.File(out2)
+                            cur = new2
                         g, n = payload.split("/")
                         e = exp[payload]
-                        if g in new.h5 and n in new.h5[g]:
-                            s = new[g][n]
+                        if g in cur.h5 and n in cur.h5[g]:
+                            s = cur[g][n]
                             txt = show_slice(e["kind"], s)
                             if e["kind"] == "cont":
                                 txt = f"cont {int(s.start)} {public_dt(s)} " + txt.split(" ", 1)[1]
@@ -658,6 +709,8 @@ def _file_impl(case):
                     obs["kymo"] = kymo_observation(f, new or lk.File(out), spec, case["crop"])
                 except Exception as ex:
                     obs["kymo"] = {"error": repr(ex)}
+            if new2 is not None:
+                new2.h5.close()
             if new is not None:
                 new.h5.close()
             f.h5.close()
@@ -757,6 +810,20 @@ def oracle(case, ia):
             if abs(got - exact) * 2**53 > exact:
                 return f"sample-rate: a {case['dt']} ns channel stores {float(got)!r} Hz, not 1e9/{case['dt']} to double precision"
         return None
+    if k == "num":
+        from fractions import Fraction
+
+        x = Fraction(case["x"])
+        try:
+            p_, q_ = (ia[0].split("/") + ["1"])[:2]
+            got = Fraction(int(p_), int(q_))
+        except Exception:
+            return f"{case['what']}: {ia[0]}"
+        if case["what"] == "round":
+            ok = abs(got - x) <= Fraction(1, 2) and (abs(got - x) < Fraction(1, 2) or got % 2 == 0)
+        else:
+            ok = abs(got - x) * 2**53 <= abs(x)
+        return None if ok else f"arithmetic: {case['what']}({case['x']}) = {ia[0]}"
     if k == "dtr":
         from fractions import Fraction
 
@@ -808,8 +875,10 @@ def oracle(case, ia):
         if case["kind"] == "absent" and case["shape"] == "plain" and case["rate"] and ia[0] != "Continuous":
             return f"channel kind: a v1 dataset with a sample rate is read as {ia[0]}"
         return None
-    if k == "cropread":
+    if k in ("cropread", "cropread2"):
         a, b = case["crop"]
+        if k == "cropread2":
+            a, b = max(a, case["crop2"][0]), min(b, case["crop2"][1])
         e = case["src"]
         kept = [(t, v) for t, v in src_samples(e) if a <= t < b]
         if not kept:
@@ -893,8 +962,10 @@ def _file_oracle(case, ia):
                 return f"save_as(omit={case['omit']}): exported flags {ans} for {case['all_paths']}, expected {enc_list(want, enc_bool)}"
             if obs.get("omit_compare"):
                 return "save_as without cropping: " + "; ".join(obs["omit_compare"][:3])
-        elif kind == "crop":
+        elif kind in ("crop", "cropread2"):
             a, b = case["crop"]
+            if kind == "cropread2":
+                a, b = max(a, case["crop2"][0]), min(b, case["crop2"][1])
             e = exp[payload]
             kept = [(t, v) for t, v in zip(e["ts"], e["data"]) if a <= t < b]
             if not kept:
@@ -931,7 +1002,7 @@ def _file_oracle(case, ia):
 def agree(case, i, ia, ma):
     if case["op"] == "file":
         plan = file_plan(case)
-        if i < len(plan) and plan[i][1] in ("crop", "cropread"):
+        if i < len(plan) and plan[i][1] in ("crop", "cropread", "cropread2"):
             # the model prints its full source; compare the samples (and, for non-empty continuous results, the start)
             if ma == "absent" or ia == "absent":
                 return ia == ma
@@ -946,7 +1017,7 @@ def nontrivial(case, ia):
     k = case["op"]
     if k in ("cal", "omit"):
         return ia[0] not in ("[]",) and ("T" in ia[0] or "F" in ia[0] or any(ch.isdigit() for ch in ia[0]))
-    if k in ("dt", "dtr"):
+    if k in ("dt", "dtr", "dtu", "num"):
         return True
     if k == "attrs":
         return len(case["present"]) > 0
@@ -954,7 +1025,7 @@ def nontrivial(case, ia):
         return True
     if k == "calchan":
         return len(case["groups"]) > 0 and ia[0] != "[]"
-    if k == "cropread":
+    if k in ("cropread", "cropread2"):
         return len(src_samples(case["src"])) > 0
     if k == "file":
         if case["mode"] == "crop":
@@ -1087,6 +1158,9 @@ def file_case(rng, stream, size="small", mode=None, version=None):
         case["omit"] = [gen_pattern(rng, case["all_paths"]) for _ in range(npat)]
     else:
         case["crop"] = crop_windows(rng, spec, 1)[0]
+        r3 = rng.fork("crop2")
+        if r3.chance(0.4):
+            case["crop2"] = crop_windows(r3, dict(spec, kymos=[]), 1)[0]
     return case
 
 
@@ -1118,6 +1192,18 @@ def cases(tier, rng):
                 yield {"stream": "small-scope", "op": "cal", "times": list(times), "start": a, "stop": b}
     for dt in range(1, 3001 if quick else 30001):
         yield {"stream": "small-scope", "op": "dt", "dt": dt}
+    # ---- the arithmetic the sample-period theorems are about: round-half-even, one correctly rounded division,
+    #      arbitrary stored rates around half-way periods, and the truncating read-back of the pinned snapshot
+    for kq in range(-42, 43):
+        yield {"stream": "small-scope", "op": "num", "what": "round", "x": f"{kq}/4"}
+    for pn in list(range(1, 13)) + [10**9, 2**53 - 1, 2**53 + 1, 2**54 + 2, 2**54 + 6]:
+        for qn in list(range(1, 13)) + [55, 2**53 - 1]:
+            yield {"stream": "small-scope", "op": "num", "what": "fl", "x": f"{pn}/{qn}"}
+    for n_ in range(1, 61 if quick else 400):
+        for rate in (1e9 / (n_ + 0.5), float(np.nextafter(1e9 / (n_ + 0.5), 0.0)), float(np.nextafter(1e9 / (n_ + 0.5), 1e300)), 1e9 / n_):
+            yield {"stream": "small-scope", "op": "dtr", "rate": enc_float(rate)}
+    for dt in list(range(1, 201 if quick else 3001)):
+        yield {"stream": "small-scope", "op": "dtu", "dt": dt}
     paths = ["Force HF/Force 1x", "Force HF/Force 1y", "Force LF/Force 1x", "Distance/Distance 1", "a", "ab"]
     pats = ["*", "?", "a", "a*", "*a", "?b", "Force HF/*", "*/Force 1x", "Force HF/Force 1?", "Force*1x", "*/*", "Force HF", "**", "*?*", "F*e*x", ""]
     for p in pats:
@@ -1154,6 +1240,8 @@ def cases(tier, rng):
         else:
             rate = sub.randint(1, 10**9) / sub.choice([1, 3, 7, 1000, 4096])
         yield {"stream": "random", "op": "dtr", "rate": enc_float(rate), "subseed": i}
+        if i % 4 == 0:
+            yield {"stream": "random", "op": "num", "what": "fl", "x": f"{sub.randint(1, 2**62)}/{sub.randint(1, 2**40)}", "subseed": i}
     for i in range(40 if quick else 400):
         sub = r.fork(("omit", i))
         ps = ["G%d/d%d" % (sub.randint(0, 2), sub.randint(0, 3)) for _ in range(sub.randint(1, 4))] + ["Force HF/Force 1x"]
@@ -1184,6 +1272,16 @@ def cases(tier, rng):
                 if quick and (a > b + 10 or (len(src_samples(e)) == 0 and a != 100)):
                     continue
                 yield {"stream": "small-scope", "op": "cropread", "src": e, "crop": [a, b]}
+    w2 = [97, 100, 103, 106, 110, 300]
+    for e in small_srcs:
+        if len(src_samples(e)) < 2:
+            continue
+        for a in w2:
+            for b in w2:
+                for c in w2:
+                    for d_ in w2:
+                        if a < b and c < d_ and (not quick or (a + b + c + d_) % 3 == 0):
+                            yield {"stream": "small-scope", "op": "cropread2", "src": e, "crop": [a, b], "crop2": [c, d_]}
     r = rng.fork("c05-dset")
     for i in range(300 if quick else 6000):
         sub = r.fork(i)
@@ -1209,6 +1307,10 @@ def cases(tier, rng):
             a, b = sub.choice(pts), sub.choice(pts)
             if a > b and sub.chance(0.8):
                 a, b = b, a
+            if sub.chance(0.35):
+                c, d_ = sorted([sub.choice(pts), sub.choice(pts)])
+                yield {"stream": "random", "op": "cropread2", "src": e, "crop": [int(a), int(b)], "crop2": [int(c), int(d_)], "subseed": i}
+                continue
             yield {"stream": "random", "op": "cropread", "src": e, "crop": [int(a), int(b)], "compression": sub.choice([0, 1, 5, 9]), "subseed": i}
 
     # ---- calibration of a channel: Calibration groups -> from_field -> slice -> filter
@@ -1277,15 +1379,56 @@ def cases(tier, rng):
 
 def extra_coverage(results):
     modes, versions, kinds, absent, errs = {}, {}, {}, 0, {}
+    ops_n, branches = {}, {}
+
+    def hit(name):
+        branches[name] = branches.get(name, 0) + 1
+
     for r in results:
         c = r["case"]
+        ops_n[c["op"]] = ops_n.get(c["op"], 0) + 1
         if c["op"] == "file":
             modes[c["mode"]] = modes.get(c["mode"], 0) + 1
             versions[c["spec"]["version"]] = versions.get(c["spec"]["version"], 0) + 1
             for ch in c["spec"]["channels"]:
                 kinds[ch["kind"]] = kinds.get(ch["kind"], 0) + 1
             absent += sum(1 for a in r["impl"] if a == "absent")
+            if c.get("crop2"):
+                hit("file:exported-twice")
+            for (line, kind, payload), a in zip(file_plan(c), r["impl"]):
+                hit("file-op:" + kind)
+                if kind in ("cal", "calslice"):
+                    hit(f"file-{kind}:" + ("none-listed" if a == "[]" else "listed"))
+            if any("Stop time (ns)" not in a_ for cal in c["spec"]["calibrations"] for a_ in cal["channels"].values()):
+                hit("file:calibration-entry-without-time-field")
+        elif c["op"] == "class":
+            hit("class:" + r["impl"][0])
+        elif c["op"] == "calchan":
+            if not c["groups"]:
+                hit("calchan:no-Calibration-group")
+            elif not any(g.get(c["ch"]) is not None for g in c["groups"]):
+                hit("calchan:no-item-for-channel")
+            elif r["impl"][0] == "[]":
+                hit("calchan:items-but-none-applies-or-empty-slice")
+            else:
+                hit("calchan:listed-" + str(min(r["impl"][0].count(",") + 1, 3)) + ("+" if r["impl"][0].count(",") >= 2 else ""))
+            if any(t is None for g in c["groups"] for t in g.values()):
+                hit("calchan:entry-without-time-field")
+            hit("calchan:" + ("sliced" if c.get("win") else "whole"))
+        elif c["op"] in ("cropread", "cropread2"):
+            hit(f"{c['op']}:{c['src']['kind']}:" + ("absent" if r["impl"][0] == "absent" else "written"))
+        elif c["op"] == "dset":
+            hit(f"dset:{c['src']['kind']}:" + ("IndexError" if r["impl"][0] == "IndexError" else "written"))
+        elif c["op"] == "dt":
+            hit("dt:" + ("<=1e5" if c["dt"] <= 10**5 else "<=1e9" if c["dt"] <= 10**9 else "<=2^50"))
+        elif c["op"] == "dtr":
+            hit("dtr:arbitrary-rate")
+        elif c["op"] == "num":
+            hit("num:" + c["what"])
+        elif c["op"] == "dtu":
+            hit("dtu:" + ("truncation-loses-1ns" if r["impl"][0] != str(c["dt"]) else "same"))
         for a in r["impl"]:
             if a.endswith("Error"):
                 errs[a] = errs.get(a, 0) + 1
-    return {"file_modes": modes, "file_versions": versions, "channel_kinds": kinds, "channels_dropped_by_crop": absent, "error_kinds": errs}
+    return {"file_modes": modes, "file_versions": versions, "channel_kinds": kinds, "channels_dropped_by_crop": absent, "error_kinds": errs,
+            "cases_per_op": ops_n, "branches": dict(sorted(branches.items()))}
